@@ -359,6 +359,81 @@ class _GeomComp:
         yield 'counts', all(v[0] == len(v[1].split()) for v in result.values())
 
 
+_CC_RHOS = ['-1.0', '-2.5', '0.05', '-0.9982071', '-0.9982074']
+
+
+@contract(CCT4.constructCompositionT4, props=['C09', 'C10', 'C08'], name='ConstructCompositionT4.constructCompositionT4', status='B')
+class _ConstructCompo:
+    """One composition per material card and per distinct density among the level-0, unfilled cells of non-zero
+    importance that use the material (cells of filling universes count through the cells pot_fill makes of them, which
+    are level-0 cells here); densities that differ numerically -- however little -- give different compositions; a
+    negative density gives DENSITY, a positive one POINT_WISE with concentrations summing to the density; mass
+    fractions with an atom density give the (warned) empty composition.  compositionConversionMCNPToT4 is replaced by
+    two fixed material cards (its own contract is above)."""
+    scope = ('3 cells x 2 materials (atom fractions / mass fractions) x 5 densities x {live, zero importance, in a '
+             'universe, filled} (quick tier: every third combination)')
+
+    def bounded(tier):
+        k = 0
+        states = ('live', 'imp0', 'universe', 'filled')
+        for mats in itertools.product((1, 2), repeat=3):
+            for rhos in itertools.product(_CC_RHOS, repeat=3):
+                for st in (('live', 'live', 'live'), ('live', 'imp0', 'live'), ('universe', 'live', 'filled'),
+                           ('live', 'live', 'imp0')):
+                    k += 1
+                    if tier == 'quick' and k % 3:
+                        continue
+                    yield {'mats': mats, 'rhos': rhos, 'states': st}
+
+    def call(mats, rhos, states):
+        import warnings
+        from t4_geom_convert.Kernel.Composition.CompositionConversionMCNPToT4 import Abundances
+        from t4_geom_convert.Kernel.Composition.EIsotopeNameElementT4 import EIsotopeNameElement as E
+        cards = OrderedDict([(1, Abundances([((E.H, '1'), '2.0'), ((E.O, '016'), '1.0')], True)),
+                             (2, Abundances([((E.FE, '56'), '0.9'), ((E.C, '0'), '0.1')], False))])
+        cells = OrderedDict()
+        for i, (m, r, st) in enumerate(zip(mats, rhos, states), start=1):
+            cells[i] = CellMCNP(str(m), r, None, 0.0 if st == 'imp0' else 1.0, 3 if st == 'universe' else 0,
+                                5 if st == 'filled' else None, (), None, [])
+        orig = CCT4.compositionConversionMCNPToT4
+        CCT4.compositionConversionMCNPToT4 = lambda parser: cards
+        try:
+            with warnings.catch_warnings():
+                warnings.simplefilter('ignore')
+                res = CCT4.constructCompositionT4(None, cells)
+        finally:
+            CCT4.compositionConversionMCNPToT4 = orig
+        return {k: [(c.typeDensity, c.material, c.valueOfDensity, list(c.listMaterialComposition), c.nb_atom) for c in v]
+                for k, v in res.items()}
+
+    def ensures(result, mats, rhos, states):
+        want = OrderedDict()
+        for key in (1, 2):
+            seen = []
+            for m, r, st in zip(mats, rhos, states):
+                if st != 'live' or m != key or r in seen:
+                    continue
+                seen.append(r)
+            if seen:
+                want[key] = seen
+        yield 'one-composition-per-material-and-distinct-density', (
+            list(result) == list(want) and all([c[2] for c in result[k]] == want[k] for k in want))
+        yield 'named-after-the-material', all(c[1] == f'm{k}' for k, v in result.items() for c in v)
+        yield 'density-kind', all(c[0] == ('DENSITY' if float(c[2]) < 0 else 'POINT_WISE') for v in result.values() for c in v)
+        yield 'atom-fraction-flag-of-the-card', all(c[4] == (k == 1) for k, v in result.items() for c in v)
+        for k, v in result.items():
+            for c in v:
+                if c[0] == 'DENSITY':
+                    yield 'mass-density:fractions-of-the-card', c[3] == ([('H1', '2.0'), ('O16', '1.0')] if k == 1 else
+                                                                        [('FE56', '0.9'), ('C0', '0.1')])
+                elif k == 1:
+                    tot = sum(float(x) for _, x in c[3])
+                    yield 'atom-density:concentrations-sum-to-the-density', abs(tot - float(c[2])) <= 1e-12 * float(c[2])
+                    yield 'atom-density:nuclides-of-the-card-in-order', [n for n, _ in c[3]] == ['H1', 'O16']
+                else:
+                    yield 'mass-fractions-with-atom-density:empty-composition', c[3] == []
+
+
 def _sweep_c09(tier, seed):
     from harness.sweeps import deck_sweep
     return deck_sweep('C09', tier, seed, families=('level0', 'fill', 'lattice'), n_quick=32, n_thorough=400)
